@@ -35,7 +35,7 @@ SIMFS = "simfs: os/filepath calls go to an in-engine file-system model (write ap
 CLOCK = "time.Now is a strictly increasing concrete clock; tickers never fire by themselves"
 HASH = "xxhash.Sum64 / crc32.ChecksumIEEE / bloom hash are uninterpreted functions of their byte arguments (ideal-checksum assumption); CRC-32 additionally gets single-byte-error axiom instances"
 BLOOM = "above the bloom_filter package the filter is an abstract set (Contains(q) = q was added or arbitrary); the real bit operations are checked in VerifC11_BloomNoFalseNegative"
-JSON = "encoding/json is a stub: Marshal gives an opaque token, Unmarshal of exactly that token gives the value back, any other text is a syntax error"
+JSON = "encoding/json is a stub: Marshal gives an opaque token; Unmarshal of exactly that token merges the value into the destination field by field according to the struct tags (unexported, \"-\", omitempty-and-empty and name-clashing fields do not reach the text and leave the destination untouched); any other text is a syntax error"
 RAND = "math/rand draws are nondeterministic; skiplist tower height bounded as stated"
 LOG = "fmt.Print*/log output: empty bodies"
 TIERA = "Tier A: goroutines of the target are not started (background flush/compaction loops do not run); locks are tracked for state only"
@@ -229,13 +229,13 @@ check("C19", "the network API behaves like the embedded API", [
 
 check("C20", "configuration is validated and persists", [
     ob("VerifC20_Validate", "pkg/config", "Config.Validate with every field symbolic (float64 ratio as an SMT FP term) equals the documented predicate", "all 25 fields symbolic (64-bit integers, strings empty/non-empty, float as IEEE-754 bit pattern incl. NaN/Inf)"),
-    ob("VerifC20_SaveLoad", "pkg/config", "SaveManifest with symbolic validity-relevant fields, with or without an existing manifest: invalid => nothing written, existing manifest untouched, no temp file; valid => stored and loaded back unchanged",
-       "5 symbolic fields + sync mode", reach=("rejected", "stored")),
+    ob("VerifC20_SaveLoad", "pkg/config", "SaveManifest with every numeric setting symbolic, with or without an existing manifest: invalid => nothing written, existing manifest untouched, no temp file; valid => stored and every setting loaded back unchanged (zero values included)",
+       "22 symbolic fields + sync mode; directories fixed", reach=("rejected", "stored")),
     ob("VerifC20_SaveCrashAtomic", "pkg/config", "process death / power loss at any file-system step of storing a new configuration over an old one: afterwards the manifest is the old or the complete new configuration",
        "every crash point incl. after the last step; torn write every length; both crash models"),
     ob("VerifC20_OpenWithStoredConfig", "pkg/engine", "database created with a non-default configuration; manifest intact / cut at every byte / garbage / invalid configuration / removed: intact => reopened with exactly the stored configuration and its data; cut, unreadable or invalid => open fails, creates no log/table file, does not overwrite the manifest; missing => defaults",
        "5 manifest conditions, every cut offset of the stored text"),
-], [SIMFS, CLOCK, HASH, BLOOM, JSON, LOG, TIERA], ["that a valid configuration round-trips through real JSON text byte-exactly (encoding/json is reflection-driven and not encoded; the stub states the round trip as identity)", "alterations of the stored text other than truncation"])
+], [SIMFS, CLOCK, HASH, BLOOM, JSON, LOG, TIERA], ["the JSON text itself: number formatting/parsing, escaping, byte-exact layout (encoding/json is reflection-driven and not encoded; the stub models which fields reach the text and come back, per struct tags, and states the round trip of each stored field as identity)", "alterations of the stored text other than truncation"])
 
 check("C18", "memtable ordered multi-version map", [
     ob("VerifC18_TableGetIterate", "pkg/memtable", "MemTable.Put/Delete/Get/NewIterator/SetImmutable: Get returns an entry of maximal sequence number (marker = found-but-deleted); iteration ascending by key, newer versions first, each entry once; an immutable table ignores writes",
